@@ -1,4 +1,4 @@
-import ScenicModel.Props.C14
+import ScenicModel.Props.C14Base
 /-! C14 side condition (finding `scene-changed:reverted-after-proxy-disabled` while it fails):
     the `finally` block of `Simulation.__init__` reverts overrides only while the proxies are in place. -/
 namespace Scenic.C14
